@@ -173,6 +173,9 @@ class Intervals:
             if op == 'ashr':
                 if b[0] == b[1] and 0 <= b[0] < bits and -(M >> 1) <= a[0] and a[1] < (M >> 1):
                     return (a[0] >> b[0], a[1] >> b[0])
+                if b[0] == b[1] and 0 <= b[0] < bits and a[0] >= (M >> 1) and a[1] < M:
+                    # words with the top bit set: the signed value is the word minus 2^bits
+                    return ((a[0] - M) >> b[0], (a[1] - M) >> b[0])
                 return (-(M >> 1), (M >> 1) - 1)
             if op == 'and':
                 if a[0] >= 0 and b[0] >= 0:
